@@ -20,6 +20,11 @@ from tqv import gen, ref
 from tqv.core import HarnessError, Inconclusive, SubCheck, Violation, canon, classify_exception
 from tqv.props import _c15_helpers as H
 
+# caller-owned arrays handed to the library must come back unchanged (see tqv/purity.py)
+from tqv.purity import install as _install_purity  # noqa: E402
+
+_install_purity('toqito.state_props')
+
 PROPERTY = "C15"
 RULE = (
     "Cases are drawn by Hypothesis as structure + a 63-bit seed: local dimensions, state family (sep = convex mixture "
